@@ -92,10 +92,30 @@ def derive_closure(chk, facts, cfg):
         chk.ob('%s:derive:%s[%s]' % (PID, p, cfg), 'derive-closure', '%s (reachable from a public state type) has both derived serde impls' % p,
                good, detail, '%s:%s' % (a['span'][0], a['span'][1]), sample={'type': p, 'config': cfg, 'serialize': len(s), 'deserialize': len(d)})
         # field attributes that drop / default data: read from the source span of the ADT
-        attrs = serde_field_attrs(a, getattr(facts, "repo", None))
+        # (1) the attributes the compiler kept on the item, its variants and fields after expansion (cfg_attr resolved
+        #     for this feature set; multi-line and nested forms included); (2) the text scan of the item as a second view
+        attrs = compiler_serde_attrs(a, facts)
+        for x in serde_field_attrs(a, getattr(facts, "repo", None)):
+            if not any(x.strip('#[] ') in y or y in x for y in attrs):
+                attrs.append(x)
         chk.ob('%s:attrs:%s[%s]' % (PID, p, cfg), 'derive-closure', '%s has no serde attribute that skips, defaults or redirects a field' % p,
                not attrs, 'attributes found: %s' % attrs if attrs else '', '%s:%s' % (a['span'][0], a['span'][1]))
     chk.floor('serialisable-types[%s]' % cfg, len(seen), 9)
+
+
+def compiler_serde_attrs(adt, facts):
+    """serde helper attributes (container, variant, field) of the item as the compiler saw them after expansion
+    (fact file: inert attributes of the expanded AST, matched by file / line / name of the item)"""
+    out = []
+    name = adt['path'].split('::')[-1]
+    recs = getattr(facts, 'adt_attrs', {}).get((adt['span'][0], adt['span'][1], name))
+    if recs is None:
+        return ['<no attribute record for this item in the fact file>']
+    for r in recs:
+        body = ' '.join(r['text'].split())
+        if body.startswith('serde(') or body.startswith('serde ('):
+            out.append('%s: %s' % (r['owner'], body))
+    return out
 
 
 def local_adts_in(ty):
